@@ -146,6 +146,15 @@ def check(v, prop, families, extra_clause_props=(), also=()):
         path, nb = tlcsched.generate(40 if not thorough else 400)
         v.add('tlc_generated_behaviours', nb)
         families = [dict(fam, knobs=dict(fam.get('knobs', {}), file=path)) if fam['family'] == 'tlc' else fam for fam in families]
+    if any(fam['family'] == 'tlccover' for fam in families):
+        # ... and a path cover of the smaller design-model graphs: every transition of the model is driven through the real code
+        from . import tlcsched
+        path, nb, stats = tlcsched.cover(thorough, max_paths=None if thorough else 400)
+        v.add('tlc_cover_behaviours', nb)
+        v.coverage['tlc_cover'] = {c: {'model_transitions': e, 'covering_paths': p} for c, (e, p) in stats.items()}
+        families = [dict(fam, family='tlc', quick=nb, thorough=nb, knobs=dict(fam.get('knobs', {}), file=path, sequential=True,
+                                                                               base=fam.get('first', 0)))
+                    if fam['family'] == 'tlccover' else fam for fam in families]
     for fam in families:
         n = fam['thorough'] if thorough else fam['quick']
         jobs += split_jobs(fam['family'], seed, n, fam.get('knobs', {}), per=fam.get('per', 25), first=fam.get('first', 0))
